@@ -1,10 +1,11 @@
 package main
 
 import (
-	"sort"
 	"fmt"
 	"go/ast"
 	"go/token"
+	"go/types"
+	"sort"
 	"strings"
 
 	"golang.org/x/tools/go/ssa"
@@ -246,8 +247,16 @@ func shapes(v ssa.Value, depth int) []strAlt {
 							v = c.Call.Args[0]
 						}
 					}
-					_, f, ok := loadedField(v)
-					return ok && f.Name() == "RawPath"
+					if _, f, ok := loadedField(v); ok && f.Name() == "RawPath" {
+						return true
+					}
+					// the escaped copy of RawPath is empty exactly when RawPath is (the escaper maps bytes to non-empty text)
+					if c, ok := v.(*ssa.Call); ok && theWorld != nil && c.Call.StaticCallee() != nil && theWorld.InModule(c.Call.StaticCallee()) && len(c.Call.Args) == 1 {
+						if _, f, ok := loadedField(c.Call.Args[0]); ok && f.Name() == "RawPath" && verifyPathByteEscaper(theWorld, c.Call.StaticCallee()) == "" {
+							return true
+						}
+					}
+					return false
 				}
 				if !isRaw(bo.X) {
 					continue
@@ -265,13 +274,40 @@ func shapes(v ssa.Value, depth int) []strAlt {
 			return one(strPart{kind: "reencoded", text: "EscapedPath()", src: x})
 		case isFuncNamed(obj, "net/url", "PathEscape"):
 			return one(strPart{kind: "escaped", text: obj.Name() + "()", src: x})
+		case theWorld != nil && x.Call.StaticCallee() != nil && theWorld.InModule(x.Call.StaticCallee()) && len(x.Call.Args) == 1 && isStringT(x.Call.Args[0].Type()):
+			// a module function string -> string applied to RawPath: accepted as an escaper if its byte predicate, evaluated
+			// for all 256 values, flags '#', controls, space and every byte >= 0x7f and leaves '%', '/' and unreserved
+			// characters alone, and the function emits %XX for flagged bytes
+			var out []strAlt
+			for _, a := range shapes(x.Call.Args[0], depth+1) {
+				kind := "const"
+				for _, p := range a.parts {
+					if p.kind != "const" {
+						kind = p.kind
+					}
+				}
+				if kind == "clientraw" {
+					if why := verifyPathByteEscaper(theWorld, x.Call.StaticCallee()); why == "" {
+						kind = "escaped"
+					} else {
+						kind = "unknown"
+						out = append(out, strAlt{parts: []strPart{{kind: kind, text: FuncName(x.Call.StaticCallee()) + "(URL.RawPath): " + why, src: x}}, facts: a.facts})
+						continue
+					}
+				} else if kind != "const" {
+					kind = "unknown"
+				}
+				out = append(out, strAlt{parts: []strPart{{kind: kind, text: FuncName(x.Call.StaticCallee()) + "(…)", src: x}}, facts: a.facts})
+			}
+			return out
 		}
 		return one(strPart{kind: "unknown", text: valStr(x), src: x})
 	case *ssa.UnOp:
 		if _, f, ok := loadedField(x); ok {
 			switch f.Name() {
 			case "RawPath":
-				return one(strPart{kind: "escaped", text: "URL.RawPath", src: x})
+				// what the client sent: an encoded path, but possibly with bytes that are illegal in one ('#', raw non-ASCII)
+				return one(strPart{kind: "clientraw", text: "URL.RawPath", src: x})
 			case "Path":
 				return one(strPart{kind: "raw", text: "URL.Path (decoded)", src: x})
 			case "RawQuery":
@@ -354,6 +390,9 @@ func checkC08Location(w *World, r *Report) {
 				ds = append(ds, p.kind+":"+p.text)
 				if p.kind == "raw" {
 					bad = "contains the decoded URL.Path (" + p.text + "): reserved characters are re-interpreted by the client"
+				}
+				if p.kind == "clientraw" {
+					bad = "URL.RawPath is copied verbatim: it is what the client sent and may hold a '#' (request targets have no fragment) or raw non-ASCII bytes; the Location then resolves elsewhere (a#b/ is path a with fragment b/)"
 				}
 				if p.kind == "reencoded" {
 					bad = "built from URL.EscapedPath() without knowing RawPath to be empty: when RawPath holds bytes net/url would escape differently, EscapedPath re-encodes the decoded path and an encoded slash (%2F) of the routed path becomes a real one"
@@ -902,4 +941,141 @@ func exactSlashPieces(facts []astFact, defs map[string]string, ndefs map[string]
 		}
 	}
 	return out
+}
+
+// verifyPathByteEscaper checks a module function used to make RawPath safe for a Location header. It returns "" when
+// the function (a) decides per byte with a predicate func(byte) bool of the module that is a single boolean expression
+// over the byte and constants, which evaluated for all 256 values is true for '#', for every byte <= ' ' and >= 0x7f, and
+// false for '%', '/', letters, digits and "-._~"; and (b) emits '%' followed by two hex digits taken from a hex table.
+func verifyPathByteEscaper(w *World, fn *ssa.Function) string {
+	var pred *ssa.Function
+	hasPercent, hasHi, hasLo := false, false, false
+	eachInstr(fn, func(in ssa.Instruction) {
+		switch x := in.(type) {
+		case *ssa.Call:
+			if cal := x.Call.StaticCallee(); cal != nil && w.InModule(cal) && len(cal.Params) == 1 && cal.Signature.Results().Len() == 1 {
+				if b, ok := cal.Params[0].Type().Underlying().(*types.Basic); ok && b.Kind() == types.Uint8 {
+					pred = cal
+				}
+			}
+		case *ssa.BinOp:
+			if k, ok := constInt(x.Y); ok {
+				if x.Op == token.SHR && k == 4 {
+					hasHi = true
+				}
+				if x.Op == token.AND && k == 15 {
+					hasLo = true
+				}
+			}
+		}
+		for _, op := range in.Operands(nil) {
+			if op != nil && *op != nil {
+				if k, ok := constInt(*op); ok && k == '%' {
+					hasPercent = true
+				}
+			}
+		}
+	})
+	if pred == nil {
+		return "no per-byte predicate func(byte) bool of the module is called"
+	}
+	if !(hasPercent && hasHi && hasLo) {
+		return "the function does not emit '%' followed by the two hex digits of the byte"
+	}
+	// evaluate the predicate on the syntax tree
+	var decl *ast.FuncDecl
+	var info *types.Info
+	for _, p := range w.Pkgs {
+		for _, f := range p.Syntax {
+			for _, d := range f.Decls {
+				if fd, ok := d.(*ast.FuncDecl); ok && fd.Name.Name == pred.Name() && fd.Recv == nil && p.Types == pred.Pkg.Pkg {
+					decl, info = fd, p.TypesInfo
+				}
+			}
+		}
+	}
+	if decl == nil || decl.Body == nil || len(decl.Body.List) != 1 {
+		return "the byte predicate is not a single return statement"
+	}
+	ret, ok := decl.Body.List[0].(*ast.ReturnStmt)
+	if !ok || len(ret.Results) != 1 {
+		return "the byte predicate is not a single return statement"
+	}
+	param := decl.Type.Params.List[0].Names[0].Name
+	for b := int64(0); b < 256; b++ {
+		v, known := evalByteBool(info, ret.Results[0], param, b)
+		if !known {
+			return "the byte predicate is not a comparison of the byte with constants"
+		}
+		must := b <= ' ' || b >= 0x7f || b == '#'
+		mustNot := b == '%' || b == '/' || (b >= 'a' && b <= 'z') || (b >= 'A' && b <= 'Z') || (b >= '0' && b <= '9') || b == '-' || b == '.' || b == '_' || b == '~'
+		if must && !v {
+			return fmt.Sprintf("byte 0x%02x is not escaped", b)
+		}
+		if mustNot && v {
+			return fmt.Sprintf("byte %q is escaped although it must be kept (existing %%XX sequences and separators stay as they are)", rune(b))
+		}
+	}
+	return ""
+}
+
+// evalByteBool evaluates a boolean expression over one byte variable and constants.
+func evalByteBool(info *types.Info, e ast.Expr, name string, b int64) (bool, bool) {
+	num := func(x ast.Expr) (int64, bool) {
+		for {
+			p, ok := x.(*ast.ParenExpr)
+			if !ok {
+				break
+			}
+			x = p.X
+		}
+		if id, ok := x.(*ast.Ident); ok && id.Name == name {
+			return b, true
+		}
+		if tv, ok := info.Types[x]; ok && tv.Value != nil {
+			return constantToInt64(tv.Value)
+		}
+		return 0, false
+	}
+	switch x := e.(type) {
+	case *ast.ParenExpr:
+		return evalByteBool(info, x.X, name, b)
+	case *ast.UnaryExpr:
+		if x.Op == token.NOT {
+			v, k := evalByteBool(info, x.X, name, b)
+			return !v, k
+		}
+	case *ast.BinaryExpr:
+		switch x.Op {
+		case token.LAND:
+			l, lk := evalByteBool(info, x.X, name, b)
+			r, rk := evalByteBool(info, x.Y, name, b)
+			return l && r, lk && rk
+		case token.LOR:
+			l, lk := evalByteBool(info, x.X, name, b)
+			r, rk := evalByteBool(info, x.Y, name, b)
+			return l || r, lk && rk
+		case token.LSS, token.LEQ, token.GTR, token.GEQ, token.EQL, token.NEQ:
+			l, lk := num(x.X)
+			r, rk := num(x.Y)
+			if !lk || !rk {
+				return false, false
+			}
+			switch x.Op {
+			case token.LSS:
+				return l < r, true
+			case token.LEQ:
+				return l <= r, true
+			case token.GTR:
+				return l > r, true
+			case token.GEQ:
+				return l >= r, true
+			case token.EQL:
+				return l == r, true
+			default:
+				return l != r, true
+			}
+		}
+	}
+	return false, false
 }
